@@ -9,6 +9,7 @@ Decides:
   R5 resolver and parser never mention the dialect, the options or the header's `other` map
   R6 every use of the option value after resolution is the effective dialect (signature comment: known finding)
 """
+import re
 from synq import (walk, show, show_stmts, strs, last_seg, pat_alts, pat_head, tail_expr, matches_of, mcalls, calls,
                   macros, lit_val, AnchorMissing)
 import tables
@@ -79,10 +80,24 @@ def r2(ctx, rep):
     f = syn.fn("pq::gen_query::compile_query", crate="prqlc")
     txt = show_stmts(f["body"], maxdepth=16)
     # target.map(|s| Target::from_str(s)).transpose()? ... the `?` must be applied to the parsed header
-    ok = False
-    for n in walk(f["body"]):
-        if n.get("k") == "try" and "Target::from_str" in show(n["e"], maxdepth=12) and "transpose()" in show(n["e"], maxdepth=12):
-            ok = True
+    # every call of Target::from_str sits under a `?` with nothing in between that can discard the error
+    import guards
+    par_ = guards.parents(f["body"])
+    calls_fs = [n for n in walk(f["body"]) if n.get("k") == "call" and show(n["f"]) == "Target::from_str"]
+    ok = bool(calls_fs)
+    for c in calls_fs:
+        cur, tried = c, False
+        while id(cur) in par_:
+            p_ = par_[id(cur)]
+            if p_.get("k") == "mcall" and p_["m"] in ("ok", "unwrap_or", "unwrap_or_default", "unwrap_or_else", "is_ok", "is_err", "or_else", "or", "map_or") and p_["r"] is cur:
+                break
+            if p_.get("k") == "try":
+                tried = True
+                break
+            if p_.get("k") in ("local", "item_fn", "block", "assign") and not (p_.get("k") == "block" and len(p_["s"]) == 1):
+                break
+            cur = p_
+        ok = ok and tried
     rep.check(ok, "propagate", "the Result of Target::from_str(header) must be propagated with `?` (an unknown name aborts compilation)", file=f["file"], line=f["l"], fn=f["path"])
     fs = [x for x in syn.fns if x["crate"] == "prqlc" and x.get("self_short") == "Target" and x["name"] == "from_str"]
     if len(fs) != 1:
@@ -110,9 +125,17 @@ def r3(ctx, rep):
     td = [x for x in syn.fns if x["crate"] == "prqlc" and x.get("self_short") == "Target" and x["name"] == "default"]
     rep.check(len(td) == 1 and show(tail_expr(td[0]["body"])) == "Self::Sql(None)", "target-default", "Target::default() must be Sql(None)", file=td[0]["file"] if td else None, line=td[0]["l"] if td else None)
     f = syn.fn("pq::gen_query::compile_query", crate="prqlc")
-    uod = [show(n["r"], maxdepth=3) for n in walk(f["body"]) if n.get("k") == "mcall" and n["m"] == "unwrap_or_default"]
-    rep.check(len(uod) == 2 and "maybe_dialect" in uod, "unwrap-or-default",
-              "a missing header / `sql.any` must resolve through unwrap_or_default()", file=f["file"], line=f["l"], fn=f["path"])
+    # a missing header resolves to Target::default(), `sql.any` (Sql(None)) to Dialect::default(): `unwrap_or_default()` or an explicit None arm
+    defaults = 0
+    for n in walk(f["body"]):
+        if n.get("k") == "mcall" and n["m"] == "unwrap_or_default":
+            defaults += 1
+        if n.get("k") == "match":
+            for arm in n["arms"]:
+                if show(arm["pat"]) == "None" and re.search(r"(Target|Dialect|Default)::default\(\)$", show(arm["body"], maxdepth=4)):
+                    defaults += 1
+    rep.check(defaults == 2, "unwrap-or-default",
+              f"a missing header and `sql.any` must each resolve to the Default value (unwrap_or_default() or `None => X::default()`); found {defaults} such defaults", file=f["file"], line=f["l"], fn=f["path"])
 
 
 def r4(ctx, rep):
